@@ -35,14 +35,17 @@ static void sample(const char *kind, const void *in, size_t inlen, const char *v
 }
 
 /* encode x (n bytes) with libjwt, compare with reference, decode back */
-static void check_enc(const unsigned char *x, size_t n)
+static void check_enc(const unsigned char *x0, size_t n)
 {
 	char *dst = NULL, ref[90000 * 4 / 3 + 16];
 	int len, dl = -7;
-	size_t rl = vh_b64u_enc(x, n, ref);
+	size_t rl = vh_b64u_enc(x0, n, ref);
+	/* exact-size heap copy without terminator, ending flush with the block: ASan sees a one-byte over-read */
+	unsigned char *blk = malloc(n ? n : 1), *x = n ? blk : blk + 1;
+	if (n) memcpy(blk, x0, n);
 	n_eval++;
 	len = jwt_base64uri_encode(&dst, (const char *)x, (int)n);
-	if (len < 0 || !dst) { viol("enc-fail", "encoder failed", x, n, NULL, len); return; }
+	if (len < 0 || !dst) { viol("enc-fail", "encoder failed", x0, n, NULL, len); free(blk); return; }
 	n_judged++;
 	if (strlen(dst) != rl || memcmp(dst, ref, rl))	/* the int return value is internal (padded length); only the text is judged */
 		viol("enc-mismatch", "encoder output differs from RFC 4648 s5 unpadded", x, n, dst, (long)strlen(dst));
@@ -55,6 +58,7 @@ static void check_enc(const unsigned char *x, size_t n)
 		free(back);
 	}
 	free(dst);
+	free(blk);
 }
 
 /* judge jwt_base64uri_decode on NUL-free text s (n bytes) */
@@ -115,6 +119,13 @@ int main(int argc, char **argv)
 	if (!strcmp(a.mode, "enc")) {
 		/* lengths 0,1,2 complete (shard 0 only), length 3: complete (thorough) or sampled n */
 		unsigned char x[3];
+		/* every length 0..3072 once per shard with random bytes (block-size corners of the encoder) */
+		for (size_t n = 0; n <= 3072; n++) {
+			static unsigned char big[3072];
+			if ((n & 0xff) == 0) vh_case_begin((long)n, "\"mode\":\"enc-sweep\",\"len\":%zu", n);
+			vh_rand_bytes(&r, big, n);
+			check_enc(big, n);
+		}
 		if (a.shard == 0) {
 			vh_case_begin(0, "\"mode\":\"enc\",\"len\":\"0-2\"");
 			check_enc(x, 0);
